@@ -7,5 +7,6 @@
 namespace vmodel {
 template<> struct capacity<unsigned long> { static constexpr std::size_t value = HASHCAP; };
 template<> struct capacity<const unsigned long*> { static constexpr std::size_t value = HASHCAP; };
+template<> struct capacity<const unsigned long* const*> { static constexpr std::size_t value = HASHCAP; };
 }
 #endif
